@@ -959,7 +959,7 @@ fn shrink_work(work: &Work) -> Vec<Work> {
                         blocks: vec![],
                         eof_marker: true,
                         level: 6,
-                    bcf_minor: 0,
+                    bcf_minor: 0, no_contig_lines: false,
                     },
                     threads: *threads,
                 });
